@@ -108,7 +108,7 @@ fn main() -> Result<()> {
     if sources.is_empty() {
         return Err(XcpError::InvalidSource("No source files found.").into());
     } else if !dest.is_dir() {
-        if sources.len() == 1 && sources[0].is_dir() && dest.exists() {
+        if sources.len() == 1 && sources[0].is_dir() && dest.try_exists()? {
             return Err(XcpError::InvalidDestination("Cannot copy a directory to a file.").into());
         } else if sources.len() > 1 {
             return Err(XcpError::InvalidDestination("Multiple sources and destination is not a directory.").into());
@@ -126,8 +126,9 @@ fn main() -> Result<()> {
             return Err(XcpError::InvalidSource("Source is directory and --recursive not specified.").into());
         }
         // Not only textually: `./d`, an absolute spelling or a link may
-        // name the source itself.
-        if source == &dest || (dest.exists() && is_same_file(source, &dest)?) {
+        // name the source itself. (try_exists: a stat that fails is an
+        // error, not "absent" -- these checks protect the source.)
+        if source == &dest || (dest.try_exists()? && is_same_file(source, &dest)?) {
             return Err(XcpError::InvalidSource("Cannot copy a directory into itself").into());
         }
 
@@ -136,7 +137,7 @@ fn main() -> Result<()> {
             .next_back()
             .ok_or(XcpError::InvalidSource("Failed to find source directory name."))?;
 
-        let target_base = if dest.exists() && dest.is_dir() && !opts.no_target_directory {
+        let target_base = if dest.try_exists()? && dest.is_dir() && !opts.no_target_directory {
             dest.join(sourcedir)
         } else {
             dest.to_path_buf()
@@ -146,7 +147,7 @@ fn main() -> Result<()> {
         if source.is_dir() && target_base.symlink_metadata().is_ok() && !target_base.is_dir() {
             return Err(XcpError::InvalidDestination("Cannot copy a directory to a file.").into());
         }
-        if source == &target_base || (target_base.exists() && is_same_file(source, &target_base)?) {
+        if source == &target_base || (target_base.try_exists()? && is_same_file(source, &target_base)?) {
             return Err(XcpError::InvalidSource("Source is same as destination").into());
         }
     }
